@@ -4,9 +4,9 @@ set -u
 patch="$1"; shift
 cd /repo || exit 2
 if [ -n "$(git status --porcelain)" ]; then echo "/repo not clean"; exit 2; fi
-if ! git apply --3way "$patch" 2>/tmp/try_seed.err; then echo "APPLY FAILED"; cat /tmp/try_seed.err; git checkout -- . ; git reset -q; exit 3; fi
+if ! git apply --3way "$patch" 2>/tmp/try_seed.err; then echo "APPLY FAILED"; cat /tmp/try_seed.err; git reset -q --hard HEAD; exit 3; fi
 git reset -q
-if grep -rq '<<<<<<<' snowfakery; then echo "CONFLICT"; git checkout -- .; exit 3; fi
+if grep -rq "<<<<<<<" snowfakery; then echo "CONFLICT"; git reset -q --hard HEAD; exit 3; fi
 cd /verif
 for p in "$@"; do
   out=$(./check "$p" quick 2>/tmp/try_seed.$p.err); rc=$?
